@@ -40,13 +40,13 @@ TB.LEAN_TY.update({
     "Onsets": "List Int", "Attr": "TzStr.Attr", "Res": "TzStr.Res", "OptRes": "Option TzStr.Res", "Kw": "ObjPy.Kw",
     "KwWd": "(Option Int × Option Int)", "Delta": "TzStr.Delta", "OptDelta": "Option TzStr.Delta",
     "DArg": "ObjPy.DArg", "Zone": "TzStr.Zone", "Jan1": "Int", "OrdSec": "Int", "OptOrdPair": "Option (Int × Int)",
-    "OptCStr": "Option (List Char)", "NameFn": "ICal.ZComp → Option (List Char)",
+    "StrList": "List (List UInt8)", "OptCStr": "Option (List Char)", "NameFn": "ICal.ZComp → Option (List Char)",
 })
 TB.DEFAULT.update({"CStr": "[]", "Kw": "{}", "OptZComp": "none", "OptDt": "none", "DArg": "ObjPy.DArg.none",
                    "OptPStr": "none", "OptDelta": "none", "Res": "default"})
 TD.NARROW.update({"OptRes": "Res"})
 
-ELEM = {"ZCompList": "ZComp", "OptZCompList": "OptZComp", "KeyList": ("Dt", "Int")}
+ELEM = {"StrList": "Str", "ZCompList": "ZComp", "OptZCompList": "OptZComp", "KeyList": ("Dt", "Int")}
 OPT = {"ZComp": "OptZComp", "Dt": "OptDt", "Int": "OptInt", "PStr": "OptPStr", "Delta": "OptDelta", "Res": "OptRes"}
 
 # attributes of typed objects: type -> attr -> (template, type)
@@ -72,8 +72,9 @@ def unkw(n):
 
 class OFn(TD.DFn):
     def __init__(self, qualname, leanname, params, ret, self_type=None, self_attrs=None, state=None, ctor=False,
-                 locals=None, ignore=()):
+                 locals=None, ignore=(), extern=False):
         TD.DFn.__init__(self, qualname, leanname, params, ret, self_type)
+        self.extern = extern                       # translated elsewhere (Generated/TzKernels.lean): only called here
         self.self_attrs = dict(self_attrs or {})   # read-only attributes passed as parameters self_<attr>
         self.state = list(state or [])             # mutable attributes: threaded through and returned
         self.ctor = ctor                           # constructor: the result is the tuple of `state`
@@ -122,6 +123,15 @@ class OTr(TD.DTr):
             return [], e.value, "StrLit"
         if isinstance(e, ast.UnaryOp) and isinstance(e.op, ast.UAdd):
             return self.expr(e.operand)
+        if isinstance(e, ast.Attribute) and isinstance(e.value, ast.Name) and e.value.id == "time" and e.attr == "timezone" \
+                and self.spec.self_type == "TZ.RangeZone":
+            return [], "(ObjPy.timeTimezone self)", "Int"
+        if isinstance(e, ast.Attribute) and e.attr == "tm_isdst" and isinstance(e.value, ast.Call) \
+                and isinstance(e.value.func, ast.Attribute) and isinstance(e.value.func.value, ast.Name) \
+                and e.value.func.value.id == "time" and e.value.func.attr == "localtime" and len(e.value.args) == 1 \
+                and self.spec.self_type == "TZ.RangeZone":
+            b, t, ty = self.expr(e.value.args[0])
+            return b, "(ObjPy.localtimeIsdst self %s)" % self.coerce(t, ty, "Ts"), "Int"
         if isinstance(e, ast.Dict) and not e.keys:
             return [], "({} : ObjPy.Kw)", "Kw"
         if self.self_attr(e) and ("self_" + e.attr) in self.types:
@@ -144,6 +154,8 @@ class OTr(TD.DTr):
     def binop(self, e):
         bl, l, tl = self.expr(e.left)
         br, r, tr = self.expr(e.right)
+        if {tl, tr} == {"Ts", "Int"} and isinstance(e.op, ast.Add):       # float timestamp + int seconds
+            return bl + br, "(%s + %s)" % (self.coerce(l, tl, "Ts"), self.coerce(r, tr, "Ts")), "Ts"
         if tl == "Jan1" and tr in ("OptDelta", "Delta") and isinstance(e.op, ast.Add):
             n = self.fresh()
             return bl + br + [(n, "ObjPy.jan1Add %s %s" % (l, self.coerce(r, tr, "OptDelta")), "OrdSec")], n, "OrdSec"
@@ -202,6 +214,10 @@ class OTr(TD.DTr):
                 if ty == "CStr":
                     n = self.fresh()
                     return b + [(n, "ObjPy.pyInt %s" % t, "Int")], n, "Int"
+            if f.id == "getattr" and len(e.args) == 3 and isinstance(e.args[1], ast.Constant) and e.args[1].value == "fold" \
+                    and isinstance(e.args[2], ast.Constant) and e.args[2].value is None:
+                b, t, ty = self.expr(e.args[0])
+                if ty == "Dt": return b, "(some (DtPy.foldOf %s))" % t, "OptInt"      # datetimes always have `fold` (Python >= 3.6)
             if f.id == "isinstance" and len(e.args) == 2:
                 b, t, ty = self.expr(e.args[0])
                 if ty == "Zone" and isinstance(e.args[1], ast.Name) and e.args[1].id == "tzrange":
@@ -378,6 +394,7 @@ class OTr(TD.DTr):
         except Untranslatable:
             return None
         c = c.replace("(", "").replace(")", "").strip()
+        if not b and "False" in [x.strip() for x in c.split(" ∧ ")] and " ∨ " not in c: return False
         if not b and c == "¬ True": return False
         if not b and c == "¬ False": return True
         return None
@@ -637,6 +654,7 @@ def translate_files(src_root, groups):
         for sp in specs:
             sp.tree = tree
         for sp in specs:
+            if sp.extern: continue
             tr = OTr(tree, allspecs, sp)
             tr.all_specs = allspecs
             text, fp = tr.function()
@@ -669,6 +687,19 @@ OBJ_GROUPS = [
             state=ZFIELDS, ctor=True, ignore={"_s"}),
     ]),
 ]
+L = "TZ.RangeZone"
+OBJ_GROUPS[0][1].extend([
+    OFn("_datetime_to_timestamp", "datetimeToTimestamp", [("dt", "Dt")], "Ts", extern=True),
+    OFn("tzlocal._naive_is_dst", "tzlocal_naiveIsDst", [("dt", "Dt")], "Int", L),
+    OFn("tzlocal.is_ambiguous", "tzlocal_isAmbiguous", [("dt", "Dt")], "Bool", L),
+    OFn("tzlocal._isdst", "tzlocal_isdst", [("dt", "Dt"), ("fold_naive", "Bool")], "Int", L),
+    OFn("tzlocal.utcoffset", "tzlocal_utcoffset", [("dt", "Dt")], "TD", L),
+    OFn("tzlocal.dst", "tzlocal_dst", [("dt", "Dt")], "TD", L),
+    OFn("tzlocal.tzname", "tzlocal_tzname", [("dt", "Dt")], "Str", L),
+])
+# tzlocal reads its own attributes of the same zone record (additive to translate_dt's table for tzrangebase)
+TD.ATTRS[L].update({"_dst_saved": ("(DtPy.tdSeconds self.saving)", "TD"), "_hasdst": ("self.hasdst", "Bool"),
+                    "_tznames": ("[self.stdAbbr, self.dstAbbr]", "StrList")})
 TD.ATTRS[V] = {"_comps": ("self", "ZCompList")}
 TD.ATTRS["TzStr.Zone"] = {k: (v[0] % "self", v[1]) for k, v in OBJ_ATTRS["Zone"].items()}
 
